@@ -210,6 +210,11 @@ func Assume(c bool) {
 	}
 }
 
+// SameCommitment reports whether two 32-byte commitments are equal. Natively this is ==; symbolically the equality is decided
+// under the stated collision-freeness of Keccak (equal hashes have equal inputs, recursively), which is what lets a check
+// conclude "the commitment changes when a covered field changes".
+func SameCommitment(a, b [32]byte) bool { return a == b }
+
 // Assert states the property.
 func Assert(name string, c bool) {
 	if !c {
